@@ -431,7 +431,7 @@ inductive Handler where
   | hookOnly                           -- SYSCALL / INT n / INT1 / INT3: ok iff a hook is registered
   | xorps | movupsLoad | movupsStore | movdToXmm | movdFromXmm
   | unimplemented                      -- `opcode_unimplemented!` / `fatal_error!` bodies
-deriving Repr, Inhabited
+deriving Repr, Inhabited, DecidableEq
 
 def SZP : BitVec 64 := FLAG_SF ||| FLAG_ZF ||| FLAG_PF
 def CO : BitVec 64 := FLAG_CF ||| FLAG_OF
